@@ -137,6 +137,8 @@ fn main() {
     // ---- parser paths (VM and generated code)
     let (_, opt) = pest_meta::parse_and_optimize(GRAMMAR).expect("grammar of all property names");
     let vm = Vm::new(opt);
+    // a VM without any rule: the property name itself as the start rule
+    let bare_vm = Vm::new(vec![]);
     // change points of every property (both neighbours), plus U+0000 and U+10FFFF
     let points: Vec<char> = if cfg.quick() {
         let mut v = vec![];
@@ -163,7 +165,7 @@ fn main() {
     let parts: Vec<Stats> = std::thread::scope(|sc| {
         let hs: Vec<_> = (0..jobs)
             .map(|j| {
-                let (points, vm, names) = (&points, &vm, &names);
+                let (points, vm, bare_vm, names) = (&points, &vm, &bare_vm, &names);
                 sc.spawn(move || {
                     let mut st = Stats::new();
                     let mut buf = String::new();
@@ -193,6 +195,12 @@ fn main() {
                             }
                             if v != want {
                                 viol(&mut st, "vm-differs-from-function", n, *c, format!("VM rule matches={v}, function says {want}"));
+                            }
+                            // a built-in emits no pair, so success is all there is to observe
+                            match vcore::catch(|| bare_vm.parse(n, &buf).is_ok()) {
+                                Ok(b) if b == want => {}
+                                Ok(b) => viol(&mut st, "vm-start-rule-differs-from-function", n, *c, format!("VM with the property as start rule matches={b}, function says {want}")),
+                                Err(p) => viol(&mut st, "vm-panics", n, *c, format!("VM (property as start rule) panicked: {p}")),
                             }
                             if g != want {
                                 viol(&mut st, "generated-differs-from-function", n, *c, format!("generated rule matches={g}, function says {want}"));
